@@ -1172,8 +1172,16 @@ class Scripts:
         self.begin('float', 'bw')
         self.emit('create')
         self.emit('set_opmod 1 0')
-        for _ in range(n):
-            x = self.pick_float(2600.0, 250000.0)
+        # the 21 points the chip offers, the decision boundaries between neighbours (where a search
+        # in other arithmetic than the driver's picks the other side) and a uniform sample
+        pts = sorted(32000000.0 / ((16 + 4 * m) * 2 ** (e + 2)) for e in range(1, 8) for m in range(3))
+        near = list(pts)
+        for a, b in zip(pts, pts[1:]):
+            mid = (a + b) / 2
+            near += [mid - 2.0, mid - 0.7, mid - 0.3, mid + 0.3, mid + 0.7, mid + 2.0, bits_f32(f32bits(mid) - 1), bits_f32(f32bits(mid) + 1)]
+        near = [x for x in near if 2600.0 <= x <= 250000.0]
+        for k in range(n + len(near)):
+            x = near[k] if k < len(near) else self.pick_float(2600.0, 250000.0)
             self.emit('%s %d' % (r.choice(['fsk_ook_rx_set_bandwidth', 'fsk_ook_rx_set_afc_bandwidth']), f32bits(x)))
             self.emit('#= bw %d' % f32bits(x))
         self.begin('float', 'decode')
